@@ -604,6 +604,22 @@ theorem c19_relocate_identity {eps : ℝ} (heps : 0 < eps) (tRa tDec rRa rDec : 
 example : (1e-12 : ℝ) ≤ cos 0 ∧ DecOk (1 : ℝ) := by
   refine ⟨by rw [cos_zero]; norm_num, ?_, ?_⟩ <;> linarith [two_le_pi]
 
+/-- **the relocation preserves the position angle** (the second half of the docstring of
+`rotate_signal_events_on_sphere`): the position angle source → relocated event *is* the position
+angle true → reco, for every event and every source outside astropy's polar cap. -/
+theorem c19_relocate_preserves_position_angle {eps : ℝ} (heps : 0 < eps)
+    (sRa sDec tRa tDec rRa rDec : ℝ) (hs : eps ≤ cos sDec) :
+    posAngle sRa sDec (relocate eps sRa sDec tRa tDec rRa rDec).1 (relocate eps sRa sDec tRa tDec rRa rDec).2
+      = posAngle tRa tDec rRa rDec :=
+  relocate_posAngle heps sRa sDec tRa tDec rRa rDec hs
+
+theorem c19_relocate_preserves_position_angle_for_current_source
+    (sRa sDec tRa tDec rRa rDec : ℝ) (hs : (Gen.C19.poleEps : ℝ) ≤ cos sDec) :
+    posAngle sRa sDec (relocate Gen.C19.poleEps sRa sDec tRa tDec rRa rDec).1
+        (relocate Gen.C19.poleEps sRa sDec tRa tDec rRa rDec).2
+      = posAngle tRa tDec rRa rDec :=
+  c19_relocate_preserves_position_angle (by unfold Gen.C19.poleEps; norm_num) _ _ _ _ _ _ hs
+
 /-! ## the calls as a whole: length assertion, `SkyCoord` validation, whole-call errors -/
 
 namespace C19
